@@ -159,10 +159,20 @@ def alphabet(v):
     ]
 
 
+# 12-surface prescriptions (every surface type, mirrors, decentres/tilts, stop flags on several surfaces)
+LONG_WORDS = [
+    [0, 1, 2, 3, 4, 7, 6, 1, 8, 9, 10, 1],
+    [4, 1, 5, 5, 0, 3, 2, 7, 10, 1, 6, 9],
+    [8, 3, 0, 1, 11, 11, 2, 1, 4, 7, 0, 3],
+    [10, 9, 8, 7, 6, 5, 4, 3, 2, 1, 0, 1],
+]
+
+
 def units(tier, variant):
     A = alphabet(variant)
     out = []
     ws = list(LZ.words(A, 1, 2)) + list(LZ.words(A[:8], 3, 3)) if tier == 'quick' else list(LZ.words(A, 1, 3)) + list(LZ.words(A[:8], 4, 4))
+    ws += [tuple(w) for w in LONG_WORDS]
     B = 12
     for i in range(0, len(ws), B):
         out.append(dict(kind='construct', words=[list(w) for w in ws[i:i + B]], variant=variant))
